@@ -609,10 +609,14 @@ class Extractor:
                     edits.append((toks[ms].s, toks[me - 1].e, e.header, 'E3'))
                     self.log('E3', what, text[toks[ms].s:toks[me - 1].e], e.header)
                 elif isinstance(e, Replace):
-                    ms, me, caps = self.locate(src, body_lo, body_hi, e.pattern, e.occ, what)
-                    rep = self.subst(src, e.template, caps)
-                    edits.append((toks[ms].s, toks[me - 1].e, rep, e.rule))
-                    self.log(e.rule, what, text[toks[ms].s:toks[me - 1].e], rep + ('   // ' + e.why if e.why else ''))
+                    if e.occ == 'all':
+                        hits = Pattern(e.pattern).find_all(toks, src.pair, body_lo, body_hi)
+                    else:
+                        hits = [self.locate(src, body_lo, body_hi, e.pattern, e.occ, what)]
+                    for (ms, me, caps) in hits:
+                        rep = self.subst(src, e.template, caps)
+                        edits.append((toks[ms].s, toks[me - 1].e, rep, e.rule))
+                        self.log(e.rule, what, text[toks[ms].s:toks[me - 1].e], rep + ('   // ' + e.why if e.why else ''))
                 elif isinstance(e, MatchFnClosures):
                     pass  # applied to the assembled text below
                 elif isinstance(e, Tail):
